@@ -744,7 +744,7 @@ func (x *Exec) execStmt(st *State, s ast.Stmt) *State {
 		}
 		if c != nil && len(c.AssertBefore) > 0 && !x.infeasible(st) {
 			switch s.(type) {
-			case *ast.AssignStmt, *ast.ExprStmt, *ast.IncDecStmt, *ast.DeclStmt, *ast.ReturnStmt, *ast.BranchStmt, *ast.SendStmt:
+			case *ast.AssignStmt, *ast.ExprStmt, *ast.IncDecStmt, *ast.DeclStmt, *ast.ReturnStmt, *ast.BranchStmt, *ast.SendStmt, *ast.IfStmt:
 				txt := x.eng.srcText(s)
 				for _, aa := range c.AssertBefore {
 					if strings.HasPrefix(txt, aa.Anchor) {
@@ -2480,7 +2480,7 @@ func (x *Exec) execRange(st *State, s *ast.RangeStmt, label string) *State {
 				if kObj != nil {
 					st.env[kObj] = kv
 				}
-				if len(kv.L) == 1 {
+				if _, keyOK := x.mapKeySort(kt); keyOK {
 					x.assume(st, x.mapHas(st, m, u, kv))
 					if visVar != nil {
 						cur := st.env[visVar]
@@ -2502,7 +2502,8 @@ func (x *Exec) execRange(st *State, s *ast.RangeStmt, label string) *State {
 				}
 			}
 			if vObj != nil {
-				if kObj != nil && len(st.env[kObj].L) == 1 {
+				_, keyOK := x.mapKeySort(u.Key())
+				if kObj != nil && keyOK {
 					st.env[vObj] = x.mapLoad(st, m, u, st.env[kObj])
 				} else {
 					st.env[vObj] = x.freshValue(vObj.Type(), "mapval")
